@@ -222,7 +222,7 @@ func TestVerifC01(t *testing.T) {
 	r.Bounds["expression_token_sequences_up_to"] = tokN
 	r.Bounds["expression_char_strings_up_to"] = chrN
 	r.Bounds["pairs_of_substitutions"] = vThorough()
-	r.Extra["rule"] = "channels {workflow, workflow inside a repository with a local action and a local reusable workflow, action metadata, reusable workflow, repo config, -config-file} x (every value and key position of the channel's seeds x ~115 YAML fragments incl. explicit tags, anchors/aliases/merge keys, nesting to depth 5000, invalid UTF-8, block forms; all byte strings <= 2; thorough: all pairs of fragments in sibling positions of one mapping) + all expression token sequences / character strings up to a bound inside ${{ }} and bare if: through the whole Linter. oracle: no panic, result shape, termination. class = (channel, result kind); non-trivial = anything but a clean lint"
+	r.Extra["rule"] = "channels {workflow, workflow inside a repository with a local action and a local reusable workflow, action metadata, reusable workflow, repo config, -config-file} x (every value and key position of the channel's seeds x ~115 YAML fragments incl. explicit tags, anchors/aliases/merge keys, nesting to depth 5000, invalid UTF-8, block forms; all byte strings <= 2; thorough: all pairs of fragments in sibling positions of one mapping) + all expression token sequences / character strings up to a bound inside ${{ }} and bare if: through the whole Linter. + every list of 1-3 runner labels out of 10 x 3 forms of runs-on x 7 shell names at step / job defaults. oracle: no panic, result shape, termination. class = (channel, result kind); non-trivial = anything but a clean lint"
 	r.Extra["assumptions"] = []string{"inputs above the stated bounds (all byte strings <= 64 KiB) are out of reach of enumeration", "yaml.v3 is exercised only as far as these inputs drive it", "a case running longer than 120 s counts as a hang"}
 	dir := vTempDir(t, "c01-")
 	c01Project(t, dir)
@@ -510,6 +510,81 @@ func TestVerifC01(t *testing.T) {
 			r.Begin(func() string { return what })
 			res := vLint(src, nil)
 			c01Oracle(r, chans[0], what, res, map[string]any{"channel": "workflow", "content": src})
+		}
+	}
+
+	// (d2) every list of 1-3 runner labels out of 10 (both operating-system families, generic and
+	// self-hosted labels, an expression, an unknown one) x the 3 forms of runs-on x a shell name at the
+	// step / the job defaults / nowhere: rules that combine what the labels say with the shell
+	{
+		labels := []string{"ubuntu-latest", "windows-latest", "macos-latest", "self-hosted", "linux", "windows", "macOS", "x64", "${{ matrix.os }}", "nosuchlabel"}
+		shells := []string{"", "bash", "pwsh", "cmd", "nosuchshell", "bash -e {0}", "${{ matrix.sh }}"}
+		var lists [][]string
+		for a := range labels {
+			lists = append(lists, []string{labels[a]})
+			for b := range labels {
+				if b == a {
+					continue
+				}
+				lists = append(lists, []string{labels[a], labels[b]})
+				for c := range labels {
+					if c == a || c == b || !(a < 3 || b < 3 || c < 3) {
+						continue // triples: at least one label of an operating-system family
+					}
+					lists = append(lists, []string{labels[a], labels[b], labels[c]})
+				}
+			}
+		}
+		r.Bounds["runner_label_lists"] = len(lists)
+		for _, ls := range lists {
+			for form := 0; form < 3; form++ {
+				if form == 0 && len(ls) != 1 {
+					continue // scalar form holds one label
+				}
+				for _, sh := range shells {
+					for where := 0; where < 2; where++ {
+						if sh == "" && where == 1 {
+							continue
+						}
+						idx++
+						if !r.Mine(idx) {
+							continue
+						}
+						if idx%1024 == 0 && r.Expired() {
+							return
+						}
+						q := func(x string) string { return "'" + x + "'" }
+						var ro string
+						switch form {
+						case 0:
+							ro = "    runs-on: " + q(ls[0]) + "\n"
+						case 1:
+							var qs []string
+							for _, l := range ls {
+								qs = append(qs, q(l))
+							}
+							ro = "    runs-on: [" + strings.Join(qs, ", ") + "]\n"
+						case 2:
+							ro = "    runs-on:\n      group: g\n      labels:\n"
+							for _, l := range ls {
+								ro += "        - " + q(l) + "\n"
+							}
+						}
+						src := "on: push\njobs:\n  a:\n" + ro + "    strategy:\n      matrix:\n        os: [ubuntu-latest]\n        sh: [bash]\n"
+						if sh != "" && where == 1 {
+							src += "    defaults:\n      run:\n        shell: " + q(sh) + "\n"
+						}
+						src += "    steps:\n      - run: echo\n"
+						if sh != "" && where == 0 {
+							src += "        shell: " + q(sh) + "\n"
+						}
+						what := fmt.Sprintf("runner labels %v form %d shell %q at %d", ls, form, sh, where)
+						r.Begin(func() string { return what })
+						res := vLint(src, nil)
+						c01Oracle(r, chans[0], what, res, map[string]any{"channel": "workflow", "content": src})
+					}
+				}
+			}
 		}
 	}
 
